@@ -89,3 +89,16 @@ def check(P, rep):
                 rep.check(en in ('rotate_signers', '__constructor') and (inc or zero), 'C08.R4', '%s:epoch-writer' % en,
                           'Epoch is written only as stored Epoch + 1 (checked) on the rotation path, or 0 at construction', esite(g, e), e.describe())
     rep.floor('retention/epoch writers', nw, 4)
+    # the epoch counter counts installed sets: every epoch bump is followed, before any success exit, by the registration of a set under
+    # exactly that epoch (otherwise the window is measured against epochs that installed nothing)
+    for en in ('rotate_signers', '__constructor'):
+        if en not in c.entries:
+            continue
+        g = P.graph(CN, en)
+        bumps = [e for e in state_effects(g) if e.kind == 'sw' and key_variant(e.key)[0] == 'Epoch' and checked('Add', e.val) is not None]
+        regs = [e for e in state_effects(g) if e.kind == 'sw' and key_variant(e.key)[0] == 'EpochBySignersHash']
+        for b in bumps:
+            same_epoch = [r for r in regs if same(core(r.val), core(b.val))]
+            ok, _ = mf(g, [b.node], [r.node for r in same_epoch])
+            rep.check(ok and bool(same_epoch), 'C08.R4', '%s:epoch-bump-installs-a-set' % en,
+                      'every epoch bump is followed, before any success exit, by EpochBySignersHash(set) := that epoch', esite(g, b))
